@@ -19,6 +19,9 @@ Definition run_1902 (h g : list Z) : io :=
 Definition fx_out (f : fx_field) : io := [[fx_pos f; bz (fx_hilo f); fx_len f; fx_kind f; fx_width f]].
 Definition run_1903 (g : list Z) : io := fx_out (fibex_emit (sig19 g)).
 Definition run_1906 (g : list Z) : io := fx_out (fibex_emit_with false (sig19 g)).
+(* 1907: [sig] -> [BIT-POSITION; high-low; BIT-LENGTH] of the MULTIPLEXER/SWITCH element (fixed writer: same numbers) *)
+Definition run_1907 (g : list Z) : io :=
+  let f := fibex_emit (sig19 g) in [[fx_pos f; bz (fx_hilo f); fx_len f]].
 (* 1904: [opt] | [sig] -> [byte; bit; length; motorola; signed] *)
 Definition run_1904 (h g : list Z) : io :=
   let c := csv_emit (nthz h 0) (sig19 g) in
@@ -52,6 +55,7 @@ Definition run_c19 (cmd : Z) (a : io) : io :=
   | 1902, [h; g] => run_1902 h g
   | 1903, [g] => run_1903 g
   | 1906, [g] => run_1906 g
+  | 1907, [g] => run_1907 g
   | 1904, [h; g] => run_1904 h g
   | 1905, [g] => run_1905 g
   | 1911, [g] => run_1911 g
